@@ -23,1816 +23,17 @@ package main
 import (
 	"bufio"
 	"bytes"
-	"context"
-	"encoding/hex"
 	"encoding/json"
-	"errors"
 	"fmt"
-	"math"
-	"math/rand"
-	"os"
-	"sort"
-	"strconv"
-	"sync"
-	"time"
-
 	"github.com/pingcap/failpoint"
-	"github.com/pingcap/kvproto/pkg/kvrpcpb"
 	"github.com/pingcap/log"
-	tikverr "github.com/tikv/client-go/v2/error"
-	"github.com/tikv/client-go/v2/internal/mockstore/mocktikv"
-	"github.com/tikv/client-go/v2/kv"
-	"github.com/tikv/client-go/v2/tikv"
-	"github.com/tikv/client-go/v2/tikvrpc"
-	"github.com/tikv/client-go/v2/txnkv/rangetask"
 	"github.com/tikv/client-go/v2/util"
-	"github.com/tikv/client-go/v2/util/async"
-	"github.com/tikv/client-go/v2/util/codec"
-	pd "github.com/tikv/pd/client"
-	"github.com/tikv/pd/client/clients/router"
-	"github.com/tikv/pd/client/constants"
-	"github.com/tikv/pd/client/opt"
-	"github.com/tikv/pd/client/pkg/caller"
 	"go.uber.org/zap"
 	"go.uber.org/zap/zapcore"
+	"math/rand"
+	"os"
+	"strconv"
 )
-
-// ---------------------------------------------------------------- spec
-
-type Op struct {
-	Op      string `json:"op"` // prewrite | pesslock | commit | rollback
-	Key     string `json:"key"`
-	Primary string `json:"primary,omitempty"`
-	Start   uint64 `json:"start"`
-	Commit  uint64 `json:"commit,omitempty"`
-	Kind    string `json:"kind,omitempty"` // put | del
-	Val     string `json:"val,omitempty"`
-	Pess    bool   `json:"pess,omitempty"` // prewrite of a pessimistic transaction over its own pessimistic lock
-}
-type Inject struct {
-	At   int    `json:"at"`             // 1-based index of the gated RPC (ScanLock / ResolveLock / DeleteRange) or PD ScanRegions call
-	Key  string `json:"key"`            // split the region containing this key at this key
-	Kind string `json:"kind,omitempty"` // "" = split; "merge" = merge the region containing Key with its right neighbour
-}
-type Case struct {
-	ID        int      `json:"id"`
-	Kind      string   `json:"kind"` // gc | part | del | vis
-	Class     string   `json:"class,omitempty"`
-	Splits    []string `json:"splits"`
-	Script    []Op     `json:"script,omitempty"`
-	Keys      []string `json:"keys,omitempty"` // audited key universe
-	SP        uint64   `json:"sp,omitempty"`
-	Mode      string   `json:"mode,omitempty"` // gc: custom | phase | full
-	Limit     uint32   `json:"limit,omitempty"`
-	Conc      int      `json:"conc,omitempty"`
-	RPT       int      `json:"rpt,omitempty"`
-	S         string   `json:"s"`
-	E         string   `json:"e"`
-	Inj       []Inject `json:"inj,omitempty"`
-	PdInj     []Inject `json:"pdinj,omitempty"`
-	FailAt    int      `json:"failat,omitempty"`     // part: 1-based index (call order) of the handler call that fails; 0 = none
-	Notify    bool     `json:"notify,omitempty"`     // del
-	ReadTS    []uint64 `json:"readts,omitempty"`     // gc: snapshot reads after the pass; vis: read timestamps
-	Cached    uint64   `json:"cached,omitempty"`     // vis: cached txn safe point
-	Stale     bool     `json:"stale,omitempty"`      // vis: cache older than the allowed interval
-	Path      string   `json:"path,omitempty"`       // vist: get | batchget | scan | rscan
-	BatchSize int      `json:"batch_size,omitempty"` // vist: scan batch size
-	TS        uint64   `json:"ts,omitempty"`         // vist: read timestamp
-	VisInj    []VisInj `json:"visinj,omitempty"`     // vist: safe-point updates at chosen instants
-	Script2   []Op     `json:"script2,omitempty"`    // gc custom mode: more leftovers written after the first pass ...
-	SP2       uint64   `json:"sp2,omitempty"`        // ... and a SECOND pass with this safe point on the same store, lock resolver and Runner object
-	Raw       bool     `json:"raw,omitempty"`        // gc: no ScanLock normalisation for this case (the store's own answer)
-	Barrier   uint64   `json:"barrier,omitempty"`    // gc mode full: a GC barrier that blocks the txn safe point at this ts
-}
-
-// VisInj: UpdateTxnSafePointCache(SP) at the At-th data RPC (Get/BatchGet/Scan, 1-based, arrival order) of the read:
-// When = before (inside SendRequest, before the inner call) | after_inner (inside SendRequest, after the inner call
-// returned, i.e. the response exists but the client has not seen it yet) | after_call (At ignored: after the API call returned)
-type VisInj struct {
-	At   int    `json:"at"`
-	When string `json:"when"`
-	SP   uint64 `json:"sp"`
-}
-type Lock struct {
-	Start   uint64 `json:"start"`
-	Primary string `json:"primary"`
-	Kind    string `json:"kind"` // put | del | pess | lock
-	Val     string `json:"val"`
-}
-type Write struct {
-	Start  uint64 `json:"start"`
-	Commit uint64 `json:"commit"`
-	Kind   string `json:"kind"` // put | del | rollback | lock
-	Val    string `json:"val"`
-}
-type Rec struct {
-	Key    string  `json:"key"`
-	Lock   *Lock   `json:"lock"`
-	Writes []Write `json:"writes"`
-}
-type Event struct {
-	T      string      `json:"t"` // scan | scanerr | resolve | resolveerr | check | pessrb | delrange | delerr | split | pdscan | begin | end
-	N      int         `json:"n,omitempty"`
-	RS     string      `json:"rs,omitempty"` // serving region
-	RE     string      `json:"re,omitempty"`
-	S      string      `json:"s,omitempty"`
-	E      string      `json:"e,omitempty"`
-	Limit  uint32      `json:"limit,omitempty"`
-	MaxVer uint64      `json:"maxver,omitempty"`
-	Keys   []string    `json:"keys,omitempty"`
-	Raw    int         `json:"raw,omitempty"` // locks returned by the mock before normalisation
-	Infos  [][2]uint64 `json:"infos,omitempty"`
-	TS     uint64      `json:"ts,omitempty"`
-	Commit uint64      `json:"commit,omitempty"`
-	TTL    uint64      `json:"ttl,omitempty"`
-	Notify bool        `json:"notify,omitempty"`
-	Layout []string    `json:"layout,omitempty"`
-	Cmd    string      `json:"cmd,omitempty"`
-	Pairs  int         `json:"pairs,omitempty"`
-	SP     uint64      `json:"sp,omitempty"`
-	Err    string      `json:"err,omitempty"`
-}
-type Read struct {
-	Key string `json:"key"`
-	TS  uint64 `json:"ts"`
-	Res string `json:"res"` // V<hex> | N (not exist) | gc | pdtimeout | err:<text>
-}
-type Result struct {
-	next        *Result     // second pass of a two-pass case
-	Case        Case        `json:"case"`
-	SetupErr    string      `json:"setup_err,omitempty"`
-	Pre         []Rec       `json:"pre,omitempty"`
-	Post        []Rec       `json:"post,omitempty"`
-	Err         string      `json:"err"` // error of the operation under test ("" = success)
-	Events      []Event     `json:"events,omitempty"`
-	Subs        [][2]string `json:"subs,omitempty"` // sub-ranges received by the handler, call order
-	Locks       []string    `json:"locks_after,omitempty"`
-	Reads       []Read      `json:"reads,omitempty"`
-	Late        []Read      `json:"late,omitempty"` // late prewrite probes of rolled-back (key, start): refused | accepted
-	ReadsBefore []Read      `json:"reads_before,omitempty"`
-	Vis         []Read      `json:"vis,omitempty"`
-	Layout0     []string    `json:"layout0"`
-	NewSP       uint64      `json:"new_sp,omitempty"`
-	Done        int         `json:"completed_regions,omitempty"`
-}
-
-func hx(b []byte) string {
-	if len(b) == 0 {
-		return "-"
-	}
-	return hex.EncodeToString(b)
-}
-func unhx(s string) []byte {
-	if s == "-" || s == "" {
-		return []byte{}
-	}
-	b, err := hex.DecodeString(s)
-	if err != nil {
-		panic(err)
-	}
-	return b
-}
-
-// ---------------------------------------------------------------- world
-
-type world struct {
-	cluster *mocktikv.Cluster
-	rpc     *mocktikv.RPCClient
-	store   *tikv.KVStore
-	storeID uint64
-
-	mu     sync.Mutex
-	events []Event
-	rpcN   int
-	pdN    int
-	inj    map[int][]string
-	pdInj  map[int][]string
-	splits map[string]bool
-	total  int
-	visOn  bool
-	visN   int
-	visInj []VisInj
-	n1     bool // normalisation N1 active for this case (ScanLock window + limit applied by the gate)
-	n2     bool // normalisation N2 active: split ResolveLock{TxnInfos} into single-transaction resolves
-	raw    bool // no normalisation at all (probe)
-}
-
-func (w *world) logEv(e Event) {
-	w.mu.Lock()
-	w.events = append(w.events, e)
-	w.mu.Unlock()
-}
-
-func decKey(enc []byte) []byte {
-	if len(enc) == 0 {
-		return []byte{}
-	}
-	_, k, err := codec.DecodeBytes(enc, nil)
-	if err != nil {
-		panic(err)
-	}
-	return k
-}
-
-// split the region containing key at key (no-op on an existing boundary / the empty key); caller holds no lock
-func (w *world) split(key []byte) {
-	if len(key) == 0 {
-		return
-	}
-	w.mu.Lock()
-	defer w.mu.Unlock()
-	if w.splits[string(key)] {
-		return
-	}
-	r, _, _, _ := w.cluster.GetRegionByKey(mocktikv.NewMvccKey(key))
-	if r == nil || bytes.Equal(r.StartKey, mocktikv.NewMvccKey(key)) {
-		return
-	}
-	ids := w.cluster.AllocIDs(2)
-	w.cluster.Split(r.Id, ids[0], key, []uint64{ids[1]}, ids[1])
-	w.splits[string(key)] = true
-	w.events = append(w.events, Event{T: "split", S: hx(key)})
-}
-
-func (w *world) layout() []string {
-	w.mu.Lock()
-	defer w.mu.Unlock()
-	return w.layoutLocked()
-}
-func (w *world) layoutLocked() []string {
-	l := make([]string, 0, len(w.splits))
-	for k := range w.splits {
-		l = append(l, k)
-	}
-	sort.Strings(l)
-	r := make([]string, len(l))
-	for i, k := range l {
-		r[i] = hx([]byte(k))
-	}
-	return r
-}
-
-func (w *world) regionRange(id uint64) (string, string) {
-	r, _ := w.cluster.GetRegion(id)
-	if r == nil {
-		return "?", "?"
-	}
-	return hx(decKey(r.StartKey)), hx(decKey(r.EndKey))
-}
-
-func (w *world) nextRPC() int {
-	w.mu.Lock()
-	w.rpcN++
-	n := w.rpcN
-	ks := w.inj[n]
-	w.mu.Unlock()
-	for _, k := range ks {
-		w.change(k)
-	}
-	return n
-}
-
-// change applies one injected layout change: "<hexkey>" = split, "m:<hexkey>" = merge with the right neighbour
-func (w *world) change(k string) {
-	if len(k) > 2 && k[:2] == "m:" {
-		w.merge(unhx(k[2:]))
-		return
-	}
-	w.split(unhx(k))
-}
-
-// merge the region containing key with its right neighbour (no-op for the last region)
-func (w *world) merge(key []byte) {
-	w.mu.Lock()
-	defer w.mu.Unlock()
-	r1, _, _, _ := w.cluster.GetRegionByKey(mocktikv.NewMvccKey(key))
-	if r1 == nil || len(r1.EndKey) == 0 {
-		return
-	}
-	r2, _, _, _ := w.cluster.GetRegionByKey(r1.EndKey)
-	if r2 == nil || r2.Id == r1.Id {
-		return
-	}
-	boundary := decKey(r1.EndKey)
-	w.cluster.Merge(r1.Id, r2.Id)
-	delete(w.splits, string(boundary))
-	w.events = append(w.events, Event{T: "merge", S: hx(boundary)})
-}
-
-type gate struct {
-	tikv.Client
-	w *world
-}
-
-func regionErrOf(resp *tikvrpc.Response) string {
-	if resp == nil {
-		return ""
-	}
-	re, err := resp.GetRegionError()
-	if err != nil {
-		return "err:" + err.Error()
-	}
-	if re != nil {
-		return "region"
-	}
-	return ""
-}
-
-func (g *gate) SendRequestAsync(ctx context.Context, addr string, req *tikvrpc.Request, cb async.Callback[*tikvrpc.Response]) {
-	go func() { cb.Schedule(g.SendRequest(ctx, addr, req, 0)) }()
-}
-
-func (g *gate) SendRequest(ctx context.Context, addr string, req *tikvrpc.Request, timeout time.Duration) (*tikvrpc.Response, error) {
-	w := g.w
-	if w.raw {
-		return g.Client.SendRequest(ctx, addr, req, timeout)
-	}
-	// livelock guard: no case needs more than a few hundred RPCs
-	w.mu.Lock()
-	w.total++
-	over := w.total > rpcBudget
-	w.mu.Unlock()
-	if over {
-		return nil, errors.New("verif: RPC budget exceeded (livelock?)")
-	}
-	if w.visOn && (req.Type == tikvrpc.CmdGet || req.Type == tikvrpc.CmdBatchGet || req.Type == tikvrpc.CmdScan) {
-		w.mu.Lock()
-		w.visN++
-		n := w.visN
-		w.mu.Unlock()
-		probe := tikv.StoreProbe{KVStore: w.store}
-		apply := func(when string) {
-			for _, vi := range w.visInj {
-				if vi.At == n && vi.When == when {
-					// the cache write and its log entry are one atomic step: several BatchGet RPCs are in flight at
-					// once, and the oracle replays the updates in log order
-					w.mu.Lock()
-					probe.UpdateTxnSafePointCache(vi.SP, time.Now())
-					w.events = append(w.events, Event{T: "update", N: n, S: when, SP: vi.SP})
-					w.mu.Unlock()
-				}
-			}
-		}
-		apply("before")
-		w.logEv(Event{T: "send", N: n, Cmd: req.Type.String()})
-		resp, err := g.Client.SendRequest(ctx, addr, req, timeout)
-		apply("after_inner")
-		ev := Event{T: "response", N: n, Cmd: req.Type.String(), Err: regionErrOf(resp)}
-		if err != nil {
-			ev.Err = "err:" + err.Error()
-		} else if ev.Err == "" {
-			switch r := resp.Resp.(type) {
-			case *kvrpcpb.ScanResponse:
-				ev.Pairs = len(r.Pairs)
-			case *kvrpcpb.BatchGetResponse:
-				ev.Pairs = len(r.Pairs)
-			case *kvrpcpb.GetResponse:
-				if !r.NotFound {
-					ev.Pairs = 1
-				}
-			}
-		}
-		w.logEv(ev)
-		return resp, err
-	}
-	switch req.Type {
-	case tikvrpc.CmdScanLock:
-		n := w.nextRPC()
-		r := req.ScanLock()
-		resp, err := g.Client.SendRequest(ctx, addr, req, timeout)
-		if err != nil {
-			return resp, err
-		}
-		if re := regionErrOf(resp); re != "" {
-			w.logEv(Event{T: "scanerr", N: n, S: hx(r.StartKey), E: hx(r.EndKey), Err: re})
-			return resp, nil
-		}
-		sr := resp.Resp.(*kvrpcpb.ScanLockResponse)
-		if sr.Error != nil {
-			return resp, nil
-		}
-		raw := len(sr.Locks)
-		// N1 (switchable): TiKV's contract
-		locks := sr.Locks
-		if w.n1 {
-			locks = nil
-			for _, l := range sr.Locks {
-				if bytes.Compare(l.Key, r.StartKey) < 0 {
-					continue
-				}
-				if len(r.EndKey) > 0 && bytes.Compare(l.Key, r.EndKey) >= 0 {
-					continue
-				}
-				locks = append(locks, l)
-			}
-			sort.Slice(locks, func(i, j int) bool { return bytes.Compare(locks[i].Key, locks[j].Key) < 0 })
-			if r.Limit > 0 && len(locks) > int(r.Limit) {
-				locks = locks[:r.Limit]
-			}
-		}
-		dbg := w.rpc.MvccStore.(mocktikv.MVCCDebugger)
-		keys := make([]string, 0, len(locks))
-		for _, l := range locks {
-			if n1tActive {
-				if info := dbg.MvccGetByKey(l.Key); info != nil && info.Lock != nil && info.Lock.StartTs == l.LockVersion {
-					l.LockType = info.Lock.Type
-				}
-			}
-			keys = append(keys, hx(l.Key))
-		}
-		sr.Locks = locks
-		rs, re := w.regionRange(req.Context.RegionId)
-		w.logEv(Event{T: "scan", N: n, RS: rs, RE: re, S: hx(r.StartKey), E: hx(r.EndKey), Limit: r.Limit, MaxVer: r.MaxVersion, Keys: keys, Raw: raw})
-		return resp, nil
-	case tikvrpc.CmdResolveLock:
-		n := w.nextRPC()
-		r := req.ResolveLock()
-		infos := make([][2]uint64, 0, len(r.TxnInfos))
-		for _, ti := range r.TxnInfos {
-			infos = append(infos, [2]uint64{ti.Txn, ti.Status})
-		}
-		sort.Slice(infos, func(i, j int) bool { return infos[i][0] < infos[j][0] })
-		var resp *tikvrpc.Response
-		var err error
-		if len(r.TxnInfos) > 0 && w.n2 {
-			// N2: one single-transaction resolve per TxnInfo
-			for _, ti := range infos {
-				sub := tikvrpc.NewRequest(tikvrpc.CmdResolveLock, &kvrpcpb.ResolveLockRequest{StartVersion: ti[0], CommitVersion: ti[1]}, req.Context)
-				resp, err = g.Client.SendRequest(ctx, addr, sub, timeout)
-				if err != nil || regionErrOf(resp) != "" {
-					break
-				}
-				if rr := resp.Resp.(*kvrpcpb.ResolveLockResponse); rr.Error != nil {
-					break
-				}
-			}
-		} else {
-			resp, err = g.Client.SendRequest(ctx, addr, req, timeout)
-		}
-		if err != nil {
-			return resp, err
-		}
-		if re := regionErrOf(resp); re != "" {
-			w.logEv(Event{T: "resolveerr", N: n, Infos: infos, Err: re})
-			return resp, nil
-		}
-		rs, re := w.regionRange(req.Context.RegionId)
-		ev := Event{T: "resolve", N: n, RS: rs, RE: re, Infos: infos, TS: r.StartVersion, Commit: r.CommitVersion}
-		for _, k := range r.Keys {
-			ev.Keys = append(ev.Keys, hx(k))
-		}
-		w.logEv(ev)
-		return resp, nil
-	case tikvrpc.CmdCheckTxnStatus:
-		r := req.CheckTxnStatus()
-		resp, err := g.Client.SendRequest(ctx, addr, req, timeout)
-		if err == nil && regionErrOf(resp) == "" {
-			cr := resp.Resp.(*kvrpcpb.CheckTxnStatusResponse)
-			ev := Event{T: "check", S: hx(r.PrimaryKey), TS: r.LockTs, Commit: cr.CommitVersion, TTL: cr.LockTtl}
-			if cr.Error != nil {
-				ev.Err = cr.Error.String()
-			}
-			if r.CurrentTs != math.MaxUint64 {
-				ev.Err += " current_ts!=max"
-			}
-			w.logEv(ev)
-		}
-		return resp, err
-	case tikvrpc.CmdPessimisticRollback:
-		r := req.PessimisticRollback()
-		resp, err := g.Client.SendRequest(ctx, addr, req, timeout)
-		if err == nil && regionErrOf(resp) == "" {
-			ev := Event{T: "pessrb", TS: r.StartVersion}
-			for _, k := range r.Keys {
-				ev.Keys = append(ev.Keys, hx(k))
-			}
-			w.logEv(ev)
-		}
-		return resp, err
-	case tikvrpc.CmdDeleteRange:
-		n := w.nextRPC()
-		r := req.DeleteRange()
-		var resp *tikvrpc.Response
-		var err error
-		if r.NotifyOnly && n3Active {
-			// N3 (switchable): epoch check through a harmless request, then answer ourselves
-			probe := tikvrpc.NewRequest(tikvrpc.CmdScanLock, &kvrpcpb.ScanLockRequest{MaxVersion: 0}, req.Context)
-			presp, perr := g.Client.SendRequest(ctx, addr, probe, timeout)
-			if perr != nil {
-				return presp, perr
-			}
-			if regionErrOf(presp) != "" {
-				pr := presp.Resp.(*kvrpcpb.ScanLockResponse)
-				resp = &tikvrpc.Response{Resp: &kvrpcpb.DeleteRangeResponse{RegionError: pr.RegionError}}
-			} else {
-				resp = &tikvrpc.Response{Resp: &kvrpcpb.DeleteRangeResponse{}}
-			}
-		} else {
-			resp, err = g.Client.SendRequest(ctx, addr, req, timeout)
-		}
-		if err != nil {
-			return resp, err
-		}
-		if re := regionErrOf(resp); re != "" {
-			w.logEv(Event{T: "delerr", N: n, S: hx(r.StartKey), E: hx(r.EndKey), Err: re})
-			return resp, nil
-		}
-		rs, re := w.regionRange(req.Context.RegionId)
-		w.logEv(Event{T: "delrange", N: n, RS: rs, RE: re, S: hx(r.StartKey), E: hx(r.EndKey), Notify: r.NotifyOnly,
-			Err: resp.Resp.(*kvrpcpb.DeleteRangeResponse).Error})
-		return resp, nil
-	}
-	return g.Client.SendRequest(ctx, addr, req, timeout)
-}
-
-type pdGate struct {
-	pd.Client
-	w *world
-}
-
-func (p *pdGate) ScanRegions(ctx context.Context, startKey, endKey []byte, limit int, opts ...opt.GetRegionOption) ([]*router.Region, error) {
-	w := p.w
-	w.mu.Lock()
-	w.pdN++
-	n := w.pdN
-	ks := w.pdInj[n]
-	w.mu.Unlock()
-	for _, k := range ks {
-		w.change(k)
-	}
-	w.mu.Lock()
-	w.events = append(w.events, Event{T: "pdscan", N: n, S: hx(decKey(startKey)), Limit: uint32(limit), Layout: w.layoutLocked()})
-	w.mu.Unlock()
-	return p.Client.ScanRegions(ctx, startKey, endKey, limit, opts...)
-}
-
-// the codec client re-wraps the result of WithCallerComponent: stay in the chain
-func (p *pdGate) WithCallerComponent(caller.Component) pd.Client { return p }
-
-const rpcBudget = 4000
-
-// N2 mode (env VERIF_C14_N2): off (default) = never; auto = only when the probe finds that the mock ignores
-// TxnInfos; on = always.  Since the mock honours TxnInfos (fix 448a517) the default is off, so that a mock that
-// regresses is reported by the lock audit instead of being papered over.
-var (
-	mockHonoursTxnInfos bool
-	n2Active            bool
-	// N1T (env VERIF_C14_N1T = off (default) | auto | on): fill ScanLock's lock_type from the MVCC debugger. Until fix F41
-	// mocktikv's ScanLock returned no lock_type, so BatchResolveLocks could not recognise pessimistic locks; filling it in
-	// the harness masked that (a stale-primary pessimistic lock then rolls back a committed transaction's secondary).
-	n1tActive bool
-	// N1 / N3 (env VERIF_C14_N1, VERIF_C14_N3 = off (default) | auto | on; VERIF_C14_STRICT=1 = everything off): the gate applies
-	// ScanLock's window and limit / answers notify-only DeleteRange itself only when the start-up probe finds the store does not
-	n1Active          bool
-	n3Active          bool
-	mockScanLockTyped bool
-)
-
-func newWorld(c *Case) (*world, error) {
-	rpc, cluster, pdc, err := mocktikv.NewTiKVAndPDClient("", nil)
-	if err != nil {
-		return nil, err
-	}
-	storeID, _, _ := mocktikv.BootstrapWithSingleStore(cluster)
-	w := &world{cluster: cluster, rpc: rpc, storeID: storeID, inj: map[int][]string{}, pdInj: map[int][]string{}, splits: map[string]bool{}, n2: n2Active, n1: n1Active && !c.Raw}
-	for _, s := range c.Splits {
-		w.split(unhx(s))
-	}
-	w.events = nil
-	for _, i := range c.Inj {
-		k := i.Key
-		if i.Kind == "merge" {
-			k = "m:" + k
-		}
-		w.inj[i.At] = append(w.inj[i.At], k)
-	}
-	for _, i := range c.PdInj {
-		k := i.Key
-		if i.Kind == "merge" {
-			k = "m:" + k
-		}
-		w.pdInj[i.At] = append(w.pdInj[i.At], k)
-	}
-	// the PD gate sits below the codec PD client (NewKVStore insists on a *CodecPDClient on top): keys are region-encoded here
-	st, err := tikv.NewTestTiKVStore(rpc, &pdGate{Client: pdc, w: w},
-		func(cl tikv.Client) tikv.Client { return &gate{Client: cl, w: w} }, nil, 0)
-	if err != nil {
-		return nil, err
-	}
-	w.store = st
-	return w, nil
-}
-
-func (w *world) close() {
-	if w.store != nil {
-		w.store.Close()
-	}
-}
-
-// ---------------------------------------------------------------- population + audit (directly on the mock's MVCC store)
-
-func firstErr(errs []error) error {
-	for _, e := range errs {
-		if e != nil {
-			return e
-		}
-	}
-	return nil
-}
-
-func (w *world) runScript(ops []Op) error {
-	ms := w.rpc.MvccStore
-	for i, o := range ops {
-		var err error
-		key := unhx(o.Key)
-		switch o.Op {
-		case "prewrite":
-			m := &kvrpcpb.Mutation{Op: kvrpcpb.Op_Put, Key: key, Value: unhx(o.Val)}
-			if o.Kind == "del" {
-				m = &kvrpcpb.Mutation{Op: kvrpcpb.Op_Del, Key: key}
-			}
-			req := &kvrpcpb.PrewriteRequest{Mutations: []*kvrpcpb.Mutation{m}, PrimaryLock: unhx(o.Primary), StartVersion: o.Start, LockTtl: 3000}
-			if o.Pess {
-				req.ForUpdateTs = o.Start
-				req.PessimisticActions = []kvrpcpb.PrewriteRequest_PessimisticAction{kvrpcpb.PrewriteRequest_DO_PESSIMISTIC_CHECK}
-			}
-			err = firstErr(ms.Prewrite(req))
-		case "pesslock":
-			resp := ms.PessimisticLock(&kvrpcpb.PessimisticLockRequest{
-				Mutations:   []*kvrpcpb.Mutation{{Op: kvrpcpb.Op_PessimisticLock, Key: key}},
-				PrimaryLock: unhx(o.Primary), StartVersion: o.Start, ForUpdateTs: o.Start, LockTtl: 3000, WaitTimeout: -1})
-			if len(resp.Errors) > 0 {
-				err = errors.New(resp.Errors[0].String())
-			}
-		case "commit":
-			err = ms.Commit([][]byte{key}, o.Start, o.Commit)
-		case "rollback":
-			err = ms.Rollback([][]byte{key}, o.Start)
-		default:
-			err = fmt.Errorf("unknown op %q", o.Op)
-		}
-		if err != nil {
-			return fmt.Errorf("script op %d %+v: %v", i, o, err)
-		}
-	}
-	return nil
-}
-
-func opName(o kvrpcpb.Op) string {
-	switch o {
-	case kvrpcpb.Op_Put:
-		return "put"
-	case kvrpcpb.Op_Del:
-		return "del"
-	case kvrpcpb.Op_Rollback:
-		return "rollback"
-	case kvrpcpb.Op_Lock:
-		return "lock"
-	case kvrpcpb.Op_PessimisticLock:
-		return "pess"
-	}
-	return "op" + strconv.Itoa(int(o))
-}
-
-func (w *world) dump(keys []string) []Rec {
-	dbg := w.rpc.MvccStore.(mocktikv.MVCCDebugger)
-	recs := make([]Rec, 0, len(keys))
-	for _, k := range keys {
-		info := dbg.MvccGetByKey(unhx(k))
-		r := Rec{Key: k, Writes: []Write{}}
-		if info != nil {
-			if info.Lock != nil {
-				r.Lock = &Lock{Start: info.Lock.StartTs, Primary: hx(info.Lock.Primary), Kind: opName(info.Lock.Type), Val: hx(info.Lock.ShortValue)}
-			}
-			vals := map[uint64][]byte{}
-			for _, v := range info.Values {
-				vals[v.StartTs] = v.Value
-			}
-			for _, wr := range info.Writes {
-				val := wr.ShortValue
-				if v, ok := vals[wr.StartTs]; ok && wr.Type == kvrpcpb.Op_Put {
-					val = v
-				}
-				r.Writes = append(r.Writes, Write{Start: wr.StartTs, Commit: wr.CommitTs, Kind: opName(wr.Type), Val: hx(val)})
-			}
-		}
-		recs = append(recs, r)
-	}
-	return recs
-}
-
-func errClass(err error) string {
-	if err == nil {
-		return ""
-	}
-	var gcErr *tikverr.ErrTxnAbortedByGC
-	if errors.As(err, &gcErr) {
-		return "gc"
-	}
-	var pdErr *tikverr.ErrPDServerTimeout
-	if errors.As(err, &pdErr) {
-		return "pdtimeout"
-	}
-	if tikverr.IsErrNotFound(err) {
-		return "N"
-	}
-	return "err:" + err.Error()
-}
-
-// ---------------------------------------------------------------- running one case
-
-func runCase(c *Case) *Result {
-	res := &Result{Case: *c}
-	w, err := newWorld(c)
-	if err != nil {
-		res.SetupErr = err.Error()
-		return res
-	}
-	defer w.close()
-	res.Layout0 = w.layout()
-	if err := w.runScript(c.Script); err != nil {
-		res.SetupErr = err.Error()
-		return res
-	}
-	ctx := context.Background()
-	switch c.Kind {
-	case "gc":
-		res.Pre = w.dump(c.Keys)
-		probe := tikv.StoreProbe{KVStore: w.store}
-		// snapshot reads BEFORE the pass, lock-free keys only (a reader would resolve the locks it meets)
-		for _, ts := range c.ReadTS {
-			snap := w.store.GetSnapshot(ts)
-			for _, r := range res.Pre {
-				if r.Lock != nil {
-					continue
-				}
-				e, err := snap.Get(ctx, unhx(r.Key))
-				rd := Read{Key: r.Key, TS: ts}
-				if err != nil {
-					rd.Res = errClass(err)
-				} else {
-					rd.Res = "V" + hex.EncodeToString(e.Value)
-				}
-				res.ReadsBefore = append(res.ReadsBefore, rd)
-			}
-		}
-		var subsMu sync.Mutex
-		var runner *rangetask.Runner
-		curRes, curSP := res, c.SP
-		switch c.Mode {
-		case "phase":
-			err = probe.GCResolveLockPhase(ctx, c.SP, c.Conc)
-		case "full":
-			if c.Barrier > 0 {
-				if _, berr := probe.GetGCStatesClient().SetGCBarrier(ctx, "verif", c.Barrier, time.Hour); berr != nil {
-					res.SetupErr = "barrier: " + berr.Error()
-					return res
-				}
-			}
-			res.NewSP, err = w.store.GC(ctx, c.SP, tikv.WithConcurrency(c.Conc))
-		default:
-			resolver := tikv.NewRegionLockResolver("verif-gc", w.store)
-			handler := func(ctx context.Context, r kv.KeyRange) (st rangetask.TaskStat, err error) {
-				subsMu.Lock()
-				curRes.Subs = append(curRes.Subs, [2]string{hx(r.StartKey), hx(r.EndKey)})
-				sp := curSP
-				subsMu.Unlock()
-				w.logEv(Event{T: "begin", S: hx(r.StartKey), E: hx(r.EndKey)})
-				// the client's own consistency panics (e.g. saveResolved: "status not equal to the cached one") must surface as a
-				// failed pass with the population as failing input, not kill the driver
-				defer func() {
-					if p := recover(); p != nil {
-						err = fmt.Errorf("panic in ResolveLocksForRange: %v", p)
-					}
-				}()
-				st, err = tikv.ResolveLocksForRange(ctx, resolver, sp, r.StartKey, r.EndKey, tikv.NewGcResolveLockMaxBackoffer, c.Limit)
-				w.logEv(Event{T: "end", S: hx(r.StartKey), E: hx(r.EndKey)})
-				return st, err
-			}
-			runner = rangetask.NewRangeTaskRunner("verif-gc", w.store, c.Conc, handler)
-			if c.RPT > 0 {
-				runner.SetRegionsPerTask(c.RPT)
-			}
-			err = runner.RunOnRange(ctx, unhx(c.S), unhx(c.E))
-			res.Done = runner.CompletedRegions()
-		}
-		if err != nil {
-			res.Err = err.Error()
-		}
-		res.Events = w.events
-		w.mu.Lock()
-		w.inj, w.pdInj = map[int][]string{}, map[int][]string{}
-		w.mu.Unlock()
-		res.Post = w.dump(c.Keys)
-		locks, lerr := probe.ScanLocks(ctx, []byte{}, []byte{0xff, 0xff, 0xff}, math.MaxUint64)
-		if lerr != nil {
-			res.Locks = []string{"err:" + lerr.Error()}
-		}
-		for _, l := range locks {
-			res.Locks = append(res.Locks, fmt.Sprintf("%s@%d", hx(l.Key), l.TxnID))
-		}
-		// snapshot reads: only where no remaining lock could block (the check filters with the post state too)
-		postLock := map[string]uint64{}
-		for _, r := range res.Post {
-			if r.Lock != nil && r.Lock.Kind != "pess" {
-				postLock[r.Key] = r.Lock.Start
-			}
-		}
-		for _, ts := range c.ReadTS {
-			snap := w.store.GetSnapshot(ts)
-			for _, k := range c.Keys {
-				if ls, ok := postLock[k]; ok && ls <= ts {
-					continue
-				}
-				e, err := snap.Get(ctx, unhx(k))
-				rd := Read{Key: k, TS: ts}
-				if err != nil {
-					rd.Res = errClass(err)
-				} else {
-					rd.Res = "V" + hex.EncodeToString(e.Value)
-				}
-				res.Reads = append(res.Reads, rd)
-			}
-		}
-		// rollback markers: a late prewrite of a (key, start ts) the pass rolled back must be refused
-		if res.Err == "" {
-			n := 0
-			for i, r0 := range res.Pre {
-				l := r0.Lock
-				if l == nil || l.Kind == "pess" || l.Start > c.SP || n >= 3 || res.Post[i].Lock != nil {
-					continue
-				}
-				committed := false
-				for _, wr := range res.Post[i].Writes {
-					if wr.Start == l.Start && wr.Kind != "rollback" {
-						committed = true
-					}
-				}
-				if committed {
-					continue
-				}
-				n++
-				errs := w.rpc.MvccStore.Prewrite(&kvrpcpb.PrewriteRequest{Mutations: []*kvrpcpb.Mutation{{Op: kvrpcpb.Op_Put, Key: unhx(r0.Key), Value: []byte("late")}},
-					PrimaryLock: unhx(l.Primary), StartVersion: l.Start, LockTtl: 3000})
-				rd := Read{Key: r0.Key, TS: l.Start, Res: "accepted"}
-				if e := firstErr(errs); e != nil {
-					rd.Res = "refused"
-				}
-				res.Late = append(res.Late, rd)
-			}
-		}
-		// second pass on the same store / lock resolver (status cache) / Runner object, after more leftovers were written
-		if runner != nil && len(c.Script2) > 0 && res.Err == "" {
-			res2 := &Result{Case: *c, Layout0: w.layout()}
-			res2.Case.ID += 100000
-			res2.Case.Class = "pass2"
-			res2.Case.SP, res2.Case.SP2 = c.SP2, 0
-			res2.Case.Script = append(append([]Op{}, c.Script...), c.Script2...)
-			res2.Case.Script2, res2.Case.Inj, res2.Case.PdInj, res2.Case.ReadTS = nil, nil, nil, nil
-			res.next = res2
-			if err := w.runScript(c.Script2); err != nil {
-				res2.SetupErr = err.Error()
-			} else {
-				w.mu.Lock()
-				w.events = nil
-				w.mu.Unlock()
-				res2.Pre = w.dump(c.Keys)
-				subsMu.Lock()
-				curRes, curSP = res2, c.SP2
-				subsMu.Unlock()
-				if err := runner.RunOnRange(ctx, unhx(c.S), unhx(c.E)); err != nil {
-					res2.Err = err.Error()
-				}
-				res2.Done = runner.CompletedRegions()
-				res2.Events = w.events
-				res2.Post = w.dump(c.Keys)
-				if locks, lerr := probe.ScanLocks(ctx, []byte{}, []byte{0xff, 0xff, 0xff}, math.MaxUint64); lerr == nil {
-					for _, l := range locks {
-						res2.Locks = append(res2.Locks, fmt.Sprintf("%s@%d", hx(l.Key), l.TxnID))
-					}
-				}
-			}
-		}
-	case "part":
-		var mu sync.Mutex
-		calls := 0
-		handler := func(ctx context.Context, r kv.KeyRange) (rangetask.TaskStat, error) {
-			mu.Lock()
-			calls++
-			n := calls
-			res.Subs = append(res.Subs, [2]string{hx(r.StartKey), hx(r.EndKey)})
-			mu.Unlock()
-			if c.FailAt > 0 && n == c.FailAt {
-				return rangetask.TaskStat{FailedRegions: 1}, errors.New("verif: injected handler failure")
-			}
-			return rangetask.TaskStat{CompletedRegions: 1}, nil
-		}
-		runner := rangetask.NewRangeTaskRunner("verif-part", w.store, c.Conc, handler)
-		if c.RPT > 0 {
-			runner.SetRegionsPerTask(c.RPT)
-		}
-		err = runner.RunOnRange(ctx, unhx(c.S), unhx(c.E))
-		if err != nil {
-			res.Err = err.Error()
-		}
-		res.Done = runner.CompletedRegions()
-		res.Events = w.events
-	case "del":
-		res.Pre = w.dump(c.Keys)
-		var task *rangetask.DeleteRangeTask
-		if c.Notify {
-			task = rangetask.NewNotifyDeleteRangeTask(w.store, unhx(c.S), unhx(c.E), c.Conc)
-		} else {
-			task = rangetask.NewDeleteRangeTask(w.store, unhx(c.S), unhx(c.E), c.Conc)
-		}
-		err = task.Execute(ctx)
-		if err != nil {
-			res.Err = err.Error()
-		}
-		res.Done = task.CompletedRegions()
-		res.Events = w.events
-		res.Post = w.dump(c.Keys)
-	case "vist":
-		probe := tikv.StoreProbe{KVStore: w.store}
-		_, _ = w.store.GetPDClient().GetGCInternalController(constants.NullKeyspaceID).AdvanceTxnSafePoint(ctx, c.Cached)
-		probe.UpdateTxnSafePointCache(c.Cached, time.Now())
-		w.visInj = c.VisInj
-		w.visOn = true
-		snap := w.store.GetSnapshot(c.TS)
-		if c.BatchSize > 0 {
-			snap.SetScanBatchSize(c.BatchSize)
-		}
-		rd := Read{Key: c.Path, TS: c.TS}
-		var got []string
-		var rerr error
-		switch c.Path {
-		case "get":
-			var e kv.ValueEntry
-			e, rerr = snap.Get(ctx, unhx(c.Keys[0]))
-			if rerr == nil {
-				got = append(got, c.Keys[0]+"="+hex.EncodeToString(e.Value))
-			}
-		case "batchget":
-			bk := make([][]byte, 0, len(c.Keys))
-			for _, k := range c.Keys {
-				bk = append(bk, unhx(k))
-			}
-			var m map[string]kv.ValueEntry
-			m, rerr = snap.BatchGet(ctx, bk)
-			for k, v := range m {
-				got = append(got, hx([]byte(k))+"="+hex.EncodeToString(v.Value))
-			}
-			sort.Strings(got)
-		case "scan", "rscan":
-			var it interface {
-				Valid() bool
-				Key() []byte
-				Value() []byte
-				Next() error
-			}
-			if c.Path == "scan" {
-				it, rerr = snap.Iter(unhx(c.S), unhx(c.E))
-			} else {
-				it, rerr = snap.IterReverse(unhx(c.E), unhx(c.S))
-			}
-			for rerr == nil && it.Valid() {
-				got = append(got, hx(it.Key())+"="+hex.EncodeToString(it.Value()))
-				rerr = it.Next()
-			}
-		}
-		w.visOn = false
-		var reget []Read
-		if c.Path == "get" {
-			// re-reads on the SAME snapshot object (its cache must hold nothing from a refused read; also covered by C05)
-			_, e1 := snap.Get(ctx, unhx(c.Keys[0]))
-			reget = append(reget, Read{Key: "reget", TS: c.TS, Res: errClass(e1)})
-			_, e2 := snap.BatchGet(ctx, [][]byte{unhx(c.Keys[0])})
-			reget = append(reget, Read{Key: "rebatchget", TS: c.TS, Res: errClass(e2)})
-		}
-		for _, vi := range c.VisInj {
-			if vi.When == "after_call" {
-				probe.UpdateTxnSafePointCache(vi.SP, time.Now())
-				w.logEv(Event{T: "update", S: "after_call", SP: vi.SP})
-			}
-		}
-		rd.Res = errClass(rerr)
-		if rerr == nil || rd.Res == "N" {
-			rd.Res = "ok"
-		}
-		res.Vis = []Read{rd}
-		res.Late = reget
-		res.Locks = got // entries returned before the verdict
-		res.Events = w.events
-		// a later read of the same snapshot sees the after_call update
-		if _, lerr := w.store.GetSnapshot(c.TS).Get(ctx, unhx(c.Keys[0])); true {
-			res.Vis = append(res.Vis, Read{Key: "later-get", TS: c.TS, Res: errClass(lerr)})
-		}
-	case "vis":
-		probe := tikv.StoreProbe{KVStore: w.store}
-		// keep the background poller consistent with what we put into the cache
-		_, _ = w.store.GetPDClient().GetGCInternalController(constants.NullKeyspaceID).AdvanceTxnSafePoint(ctx, c.Cached)
-		for _, ts := range c.ReadTS {
-			now := time.Now()
-			if c.Stale {
-				now = now.Add(-(tikv.GcStateCacheInterval - 5*time.Second))
-			}
-			probe.UpdateTxnSafePointCache(c.Cached, now)
-			res.Vis = append(res.Vis, Read{Key: "check", TS: ts, Res: errClass(w.store.CheckVisibility(ts))})
-			snap := w.store.GetSnapshot(ts)
-			for _, k := range c.Keys {
-				e, err := snap.Get(ctx, unhx(k))
-				rd := Read{Key: "get:" + k, TS: ts}
-				if err != nil {
-					rd.Res = errClass(err)
-				} else {
-					rd.Res = "V" + hex.EncodeToString(e.Value)
-				}
-				res.Vis = append(res.Vis, rd)
-			}
-			snap = w.store.GetSnapshot(ts)
-			bk := make([][]byte, 0, len(c.Keys))
-			for _, k := range c.Keys {
-				bk = append(bk, unhx(k))
-			}
-			m, err := snap.BatchGet(ctx, bk)
-			rd := Read{Key: "batchget", TS: ts}
-			if err != nil {
-				rd.Res = errClass(err)
-			} else {
-				ks := make([]string, 0, len(m))
-				for k, v := range m {
-					ks = append(ks, hx([]byte(k))+"="+hex.EncodeToString(v.Value))
-				}
-				sort.Strings(ks)
-				rd.Res = "V" + fmt.Sprint(ks)
-			}
-			res.Vis = append(res.Vis, rd)
-			snap = w.store.GetSnapshot(ts)
-			rd = Read{Key: "scan", TS: ts}
-			it, err := snap.Iter([]byte{}, nil)
-			var ks []string
-			for err == nil && it.Valid() {
-				ks = append(ks, hx(it.Key())+"="+hex.EncodeToString(it.Value()))
-				err = it.Next()
-			}
-			if err != nil {
-				rd.Res = errClass(err)
-			} else {
-				rd.Res = "V" + fmt.Sprint(ks)
-			}
-			res.Vis = append(res.Vis, rd)
-		}
-	}
-	return res
-}
-
-// ---------------------------------------------------------------- probe of the mock's ResolveLock{TxnInfos}
-
-func probeMock() map[string]interface{} {
-	c := &Case{Kind: "probe"}
-	w, err := newWorld(c)
-	if err != nil {
-		panic(err)
-	}
-	defer w.close()
-	w.raw = true
-	must := func(err error) {
-		if err != nil {
-			panic(err)
-		}
-	}
-	must(w.runScript([]Op{
-		{Op: "prewrite", Key: hx([]byte("p")), Primary: hx([]byte("p")), Start: 5, Kind: "put", Val: hx([]byte("v"))},
-		{Op: "prewrite", Key: hx([]byte("s")), Primary: hx([]byte("p")), Start: 5, Kind: "put", Val: hx([]byte("v"))},
-		{Op: "commit", Key: hx([]byte("p")), Start: 5, Commit: 7},
-	}))
-	bo := tikv.NewGcResolveLockMaxBackoffer(context.Background())
-	loc, err := w.store.GetRegionCache().LocateKey(bo, []byte("s"))
-	must(err)
-	// ScanLock contract: the only lock (on "s") lies below the start key "t"
-	sreq := tikvrpc.NewRequest(tikvrpc.CmdScanLock, &kvrpcpb.ScanLockRequest{MaxVersion: 100, StartKey: []byte("t"), Limit: 1})
-	sresp, err := w.store.SendReq(bo, sreq, loc.Region, time.Second)
-	must(err)
-	scanHonours := len(sresp.Resp.(*kvrpcpb.ScanLockResponse).Locks) == 0
-	// does ScanLock report the lock type? (a pessimistic lock on "q")
-	must(w.runScript([]Op{{Op: "pesslock", Key: hx([]byte("q")), Primary: hx([]byte("q")), Start: 6}}))
-	treq := tikvrpc.NewRequest(tikvrpc.CmdScanLock, &kvrpcpb.ScanLockRequest{MaxVersion: 100})
-	tresp, err := w.store.SendReq(bo, treq, loc.Region, time.Second)
-	must(err)
-	for _, l := range tresp.Resp.(*kvrpcpb.ScanLockResponse).Locks {
-		if string(l.Key) == "q" && l.LockType == kvrpcpb.Op_PessimisticLock {
-			mockScanLockTyped = true
-		}
-	}
-	_ = w.rpc.MvccStore.PessimisticRollback(nil, nil, [][]byte{[]byte("q")}, 6, 6)
-	req := tikvrpc.NewRequest(tikvrpc.CmdResolveLock, &kvrpcpb.ResolveLockRequest{TxnInfos: []*kvrpcpb.TxnInfo{{Txn: 5, Status: 7}}})
-	resp, err := w.store.SendReq(bo, req, loc.Region, time.Second)
-	must(err)
-	out := map[string]interface{}{"resolve_region_error": regionErrOf(resp)}
-	after := w.dump([]string{hx([]byte("s"))})
-	mockHonoursTxnInfos = after[0].Lock == nil
-	out["resolve_lock_txn_infos_honoured"] = mockHonoursTxnInfos
-	out["scan_lock_honours_start_key"] = scanHonours
-	switch os.Getenv("VERIF_C14_N2") {
-	case "on":
-		n2Active = true
-		out["n2_mode"] = "on"
-	case "auto":
-		n2Active = !mockHonoursTxnInfos
-		out["n2_mode"] = "auto"
-	default:
-		n2Active = false
-		out["n2_mode"] = "off"
-	}
-	out["n2_active"] = n2Active
-	out["scan_lock_returns_lock_type"] = mockScanLockTyped
-	switch os.Getenv("VERIF_C14_N1T") {
-	case "on":
-		n1tActive = true
-		out["n1t_mode"] = "on"
-	case "auto":
-		n1tActive = !mockScanLockTyped
-		out["n1t_mode"] = "auto"
-	default:
-		out["n1t_mode"] = "off"
-	}
-	out["n1t_active"] = n1tActive
-	out["raw_probe_script"] = "prewrite p,s (primary p, start 5, put v); commit p@7; [ResolveLock{TxnInfos:[5->7]} on s's region]; prewrite s2 (primary p, start 5); GCResolveLockPhase(safe point 100, 1 worker)"
-	// end to end on the raw mock: GC leaves the committed transaction's secondary locked
-	must(w.runScript([]Op{{Op: "prewrite", Key: hx([]byte("s2")), Primary: hx([]byte("p")), Start: 5, Kind: "put", Val: hx([]byte("v"))}}))
-	_ = tikv.StoreProbe{KVStore: w.store}.GCResolveLockPhase(context.Background(), 100, 1)
-	left := 0
-	for _, r := range w.dump([]string{hx([]byte("s")), hx([]byte("s2"))}) {
-		if r.Lock != nil {
-			left++
-		}
-	}
-	out["raw_mock_gc_locks_left"] = left
-	// ScanLock limit: two locks, limit 1
-	must(w.runScript([]Op{
-		{Op: "prewrite", Key: hx([]byte("x1")), Primary: hx([]byte("x1")), Start: 8, Kind: "put", Val: hx([]byte("v"))},
-		{Op: "prewrite", Key: hx([]byte("x2")), Primary: hx([]byte("x1")), Start: 8, Kind: "put", Val: hx([]byte("v"))}}))
-	lreq := tikvrpc.NewRequest(tikvrpc.CmdScanLock, &kvrpcpb.ScanLockRequest{MaxVersion: 100, Limit: 1})
-	lresp, err := w.store.SendReq(bo, lreq, loc.Region, time.Second)
-	must(err)
-	limitHonoured := len(lresp.Resp.(*kvrpcpb.ScanLockResponse).Locks) == 1
-	out["scan_lock_honours_limit"] = limitHonoured
-	// notify-only DeleteRange must delete nothing
-	dreq := tikvrpc.NewRequest(tikvrpc.CmdDeleteRange, &kvrpcpb.DeleteRangeRequest{StartKey: []byte("p"), EndKey: []byte("pz"), NotifyOnly: true})
-	_, err = w.store.SendReq(bo, dreq, loc.Region, time.Second)
-	must(err)
-	notifyHonoured := len(w.dump([]string{hx([]byte("p"))})[0].Writes) > 0
-	out["delete_range_notify_only_honoured"] = notifyHonoured
-	strict := os.Getenv("VERIF_C14_STRICT") == "1"
-	mode := func(env string, needed bool) (bool, string) {
-		m := os.Getenv(env)
-		if strict {
-			m = "off"
-		}
-		switch m {
-		case "on":
-			return true, "on"
-		case "auto":
-			return needed, "auto"
-		}
-		return false, "off" // default since the mock honours the contract (fixes F42 / F43)
-	}
-	n1Active, out["n1_mode"] = mode("VERIF_C14_N1", !(out["scan_lock_honours_start_key"].(bool) && limitHonoured))
-	n3Active, out["n3_mode"] = mode("VERIF_C14_N3", !notifyHonoured)
-	out["n1_active"], out["n3_active"] = n1Active, n3Active
-	if strict {
-		n2Active, n1tActive = false, false
-		out["n2_active"], out["n1t_active"] = false, false
-	}
-	return out
-}
-
-// ---------------------------------------------------------------- generators
-
-type gen struct {
-	r      *rand.Rand
-	id     int
-	tsBase uint64 // offset of the timestamps of the next population (second pass of a two-pass case)
-	tsEnd  uint64 // last timestamp used by the last population
-}
-
-var alphabet = []byte("abcdefgh")
-
-func (g *gen) key() []byte {
-	n := 1 + g.r.Intn(2)
-	if g.r.Intn(8) == 0 {
-		n = 3
-	}
-	b := make([]byte, n)
-	for i := range b {
-		b[i] = alphabet[g.r.Intn(len(alphabet))]
-	}
-	return b
-}
-func (g *gen) keys(n int) []string {
-	m := map[string]bool{}
-	for len(m) < n {
-		m[string(g.key())] = true
-	}
-	l := make([]string, 0, n)
-	for k := range m {
-		l = append(l, k)
-	}
-	sort.Strings(l)
-	return l
-}
-func (g *gen) splits(n int, keys []string) []string {
-	m := map[string]bool{}
-	for i := 0; i < n; i++ {
-		var k string
-		switch g.r.Intn(3) {
-		case 0:
-			k = keys[g.r.Intn(len(keys))] // a boundary that is a data key
-		case 1:
-			k = keys[g.r.Intn(len(keys))] + string([]byte{alphabet[g.r.Intn(len(alphabet))]})
-		default:
-			k = string(g.key())
-		}
-		m[k] = true
-	}
-	l := make([]string, 0, len(m))
-	for k := range m {
-		l = append(l, hx([]byte(k)))
-	}
-	sort.Strings(l)
-	return l
-}
-func (g *gen) rangeOf(keys []string) (string, string) {
-	switch g.r.Intn(5) {
-	case 0, 1:
-		return "-", "-"
-	case 2:
-		return hx([]byte(keys[g.r.Intn(len(keys))])), "-"
-	case 3:
-		return "-", hx([]byte(keys[g.r.Intn(len(keys))]))
-	}
-	a, b := g.key(), g.key()
-	if bytes.Compare(a, b) > 0 {
-		a, b = b, a
-	}
-	return hx(a), hx(b)
-}
-
-// leftover-lock population
-func (g *gen) population(c *Case, keys []string, ntxn int) {
-	free := map[string]bool{}
-	lastCommit := map[string]uint64{}
-	for _, k := range keys {
-		free[k] = true
-	}
-	h := func(k string) string { return hx([]byte(k)) }
-	ts := uint64(10) + g.tsBase
-	var starts []uint64
-	for i := 0; i < ntxn; i++ {
-		ts += uint64(3 + g.r.Intn(12))
-		start := ts
-		var cand []string
-		for _, k := range keys {
-			if free[k] && lastCommit[k] < start {
-				cand = append(cand, k)
-			}
-		}
-		if len(cand) == 0 {
-			continue
-		}
-		g.r.Shuffle(len(cand), func(a, b int) { cand[a], cand[b] = cand[b], cand[a] })
-		n := 1 + g.r.Intn(4)
-		if g.r.Intn(5) == 0 {
-			n = 1 + g.r.Intn(len(cand))
-		}
-		if n > len(cand) {
-			n = len(cand)
-		}
-		tk := cand[:n]
-		primary := tk[0]
-		starts = append(starts, start)
-		val := func(k string) string { return hx([]byte(fmt.Sprintf("v%d%s", start, k))) }
-		kind := func() string {
-			if g.r.Intn(4) == 0 {
-				return "del"
-			}
-			return "put"
-		}
-		commit := start + uint64(1+g.r.Intn(9))
-		states := []string{"committed", "committed", "rolledback", "pending", "pending-noprimary", "pess-pending", "pess-mixed", "pess-committed", "done", "stale-pess", "stale-pess"}
-		if c.Class == "stalepess" {
-			states = []string{"stale-pess", "stale-pess", "stale-pess", "committed", "pending", "pess-pending"}
-		}
-		if c.Mode != "custom" { // the internal handlers of GCResolveLockPhase / GC cannot be guarded against the client's panics
-			states = states[:9]
-		}
-		state := states[g.r.Intn(len(states))]
-		switch state {
-		case "done": // fully committed history, no leftovers
-			for _, k := range tk {
-				c.Script = append(c.Script, Op{Op: "prewrite", Key: h(k), Primary: h(primary), Start: start, Kind: kind(), Val: val(k)})
-			}
-			for _, k := range tk {
-				c.Script = append(c.Script, Op{Op: "commit", Key: h(k), Start: start, Commit: commit})
-				lastCommit[k] = commit
-			}
-			ts = commit
-		case "committed", "rolledback":
-			for _, k := range tk {
-				c.Script = append(c.Script, Op{Op: "prewrite", Key: h(k), Primary: h(primary), Start: start, Kind: kind(), Val: val(k)})
-			}
-			for j, k := range tk {
-				finish := j == 0 || g.r.Intn(3) == 0
-				if !finish {
-					free[k] = false
-					continue
-				}
-				if state == "committed" {
-					c.Script = append(c.Script, Op{Op: "commit", Key: h(k), Start: start, Commit: commit})
-					lastCommit[k] = commit
-				} else {
-					c.Script = append(c.Script, Op{Op: "rollback", Key: h(k), Start: start})
-				}
-			}
-			if state == "committed" {
-				ts = commit
-			}
-		case "pending":
-			for _, k := range tk {
-				c.Script = append(c.Script, Op{Op: "prewrite", Key: h(k), Primary: h(primary), Start: start, Kind: kind(), Val: val(k)})
-				free[k] = false
-			}
-		case "pending-noprimary": // secondaries prewritten, the primary never was (its key may not even be in the store)
-			if g.r.Intn(2) == 0 {
-				primary = string(g.key()) + "z"
-			}
-			for j, k := range tk {
-				if j == 0 && k == primary {
-					continue
-				}
-				c.Script = append(c.Script, Op{Op: "prewrite", Key: h(k), Primary: h(primary), Start: start, Kind: kind(), Val: val(k)})
-				free[k] = false
-			}
-		case "stale-pess":
-			// tidb#42937: leftover pessimistic locks of T whose primary FIELD is stale (an unlocked key, a key locked by another
-			// transaction, a key that does not exist -- in this or another region; never a key holding a prewrite lock of T itself),
-			// next to prewrite locks of T under its real primary; T committed (primary committed, secondaries left), pending or rolled back
-			if len(tk) < 2 {
-				cand2 := []string{}
-				for _, k := range keys {
-					if free[k] && lastCommit[k] < start && k != tk[0] {
-						cand2 = append(cand2, k)
-					}
-				}
-				if len(cand2) == 0 {
-					starts = starts[:len(starts)-1]
-					continue
-				}
-				tk = append(tk, cand2[g.r.Intn(len(cand2))])
-			}
-			npw := 1 + g.r.Intn(len(tk)-1) // tk[:npw] prewritten (tk[0] = real primary), tk[npw:] pessimistic leftovers
-			inT := map[string]bool{}
-			for _, k := range tk {
-				inT[k] = true
-			}
-			stale := func() string {
-				switch g.r.Intn(3) {
-				case 0: // a key that exists (maybe locked by another transaction, maybe lock-free), possibly in another region
-					for try := 0; try < 8; try++ {
-						if k := keys[g.r.Intn(len(keys))]; !inT[k] {
-							return k
-						}
-					}
-				case 1:
-					return string(g.key()) + "y" // no such key
-				}
-				return string(g.key()) + "0z"
-			}
-			for _, k := range tk[:npw] {
-				c.Script = append(c.Script, Op{Op: "prewrite", Key: h(k), Primary: h(primary), Start: start, Kind: kind(), Val: val(k)})
-				free[k] = false
-			}
-			for _, k := range tk[npw:] {
-				p := stale()
-				if g.r.Intn(4) == 0 {
-					p = primary // some leftovers still name the real primary
-				}
-				c.Script = append(c.Script, Op{Op: "pesslock", Key: h(k), Primary: h(p), Start: start})
-				free[k] = false
-			}
-			switch g.r.Intn(3) {
-			case 0, 1: // the writer died right after the primary commit
-				c.Script = append(c.Script, Op{Op: "commit", Key: h(primary), Start: start, Commit: commit})
-				lastCommit[primary] = commit
-				free[primary] = true
-				ts = commit
-			case 2:
-				if g.r.Intn(2) == 0 {
-					c.Script = append(c.Script, Op{Op: "rollback", Key: h(primary), Start: start})
-					free[primary] = true
-				}
-			}
-		case "pess-pending":
-			for j, k := range tk {
-				p := primary
-				if j > 0 && g.r.Intn(4) == 0 {
-					p = string(g.key()) + "y" // stale primary pointer (tidb#42937); that key holds no lock of this txn
-				}
-				c.Script = append(c.Script, Op{Op: "pesslock", Key: h(k), Primary: h(p), Start: start})
-				free[k] = false
-			}
-		case "pess-mixed", "pess-committed":
-			for _, k := range tk {
-				c.Script = append(c.Script, Op{Op: "pesslock", Key: h(k), Primary: h(primary), Start: start})
-				free[k] = false
-			}
-			for j, k := range tk {
-				if (state == "pess-committed" && j == 0) || g.r.Intn(2) == 0 {
-					c.Script = append(c.Script, Op{Op: "prewrite", Key: h(k), Primary: h(primary), Start: start, Kind: kind(), Val: val(k), Pess: true})
-				}
-			}
-			if state == "pess-committed" {
-				c.Script = append(c.Script, Op{Op: "commit", Key: h(primary), Start: start, Commit: commit})
-				lastCommit[primary] = commit
-				free[primary] = true
-				ts = commit
-			}
-		}
-	}
-	// safe point: around the start timestamps, so that some transactions lie above it; boundaries
-	// (a leftover lock with start == sp must go, one with start == sp+1 must stay) are favoured
-	var leftStarts []uint64
-	seenStart := map[uint64]bool{}
-	lockedNow := map[string]bool{}
-	for k, f := range free {
-		if !f {
-			lockedNow[hx([]byte(k))] = true
-		}
-	}
-	for _, o := range c.Script {
-		if (o.Op == "prewrite" || o.Op == "pesslock") && lockedNow[o.Key] && !seenStart[o.Start] {
-			seenStart[o.Start] = true
-			leftStarts = append(leftStarts, o.Start)
-		}
-	}
-	pick := g.r.Intn(20)
-	switch {
-	case len(starts) == 0:
-		c.SP = ts
-	case len(leftStarts) > 0 && pick < 9:
-		c.SP = leftStarts[g.r.Intn(len(leftStarts))]
-	case len(leftStarts) > 0 && pick < 12:
-		c.SP = leftStarts[g.r.Intn(len(leftStarts))] - 1
-	case g.r.Intn(3) == 0:
-		c.SP = ts + 20
-	default:
-		c.SP = starts[g.r.Intn(len(starts))] + uint64(g.r.Intn(3)) - 1
-	}
-	c.ReadTS = []uint64{c.SP, c.SP + 1, c.SP + 7, ts + 30, 1 << 40}
-	g.tsEnd = ts + 30
-}
-
-// every transaction: primary committed, every secondary left locked, all below the safe point
-func (g *gen) commitSecPopulation(c *Case, keys []string) {
-	h := func(k string) string { return hx([]byte(k)) }
-	perm := g.r.Perm(len(keys))
-	ts := uint64(10)
-	for i := 0; i < len(perm); {
-		n := 2 + g.r.Intn(3)
-		if i+n > len(perm) {
-			n = len(perm) - i
-		}
-		if n < 2 {
-			break
-		}
-		ts += uint64(3 + g.r.Intn(5))
-		start, commit := ts, ts+uint64(1+g.r.Intn(4))
-		primary := keys[perm[i]]
-		for j := 0; j < n; j++ {
-			k := keys[perm[i+j]]
-			kind := "put"
-			if g.r.Intn(4) == 0 {
-				kind = "del"
-			}
-			c.Script = append(c.Script, Op{Op: "prewrite", Key: h(k), Primary: h(primary), Start: start, Kind: kind, Val: hx([]byte(fmt.Sprintf("v%d%s", start, k)))})
-		}
-		c.Script = append(c.Script, Op{Op: "commit", Key: h(primary), Start: start, Commit: commit})
-		ts = commit
-		i += n
-	}
-	c.SP = ts + uint64(g.r.Intn(5))
-	c.ReadTS = []uint64{c.SP, c.SP + 3, 1 << 40}
-}
-
-func (g *gen) gcCase(class string) *Case {
-	g.id++
-	c := &Case{ID: g.id, Kind: "gc", Class: class, Mode: "custom"}
-	nk := 3 + g.r.Intn(12)
-	ntxn := 2 + g.r.Intn(8)
-	keys := g.keys(nk)
-	c.Splits = g.splits(g.r.Intn(6), keys)
-	c.Limit = uint32(1 + g.r.Intn(4))
-	c.Conc = 1
-	c.RPT = 128
-	c.S, c.E = "-", "-"
-	switch class {
-	case "dense": // many locks per region relative to the limit
-		keys = g.keys(10 + g.r.Intn(10))
-		ntxn = 6 + g.r.Intn(8)
-		c.Splits = g.splits(g.r.Intn(3), keys)
-		c.Limit = uint32(1 + g.r.Intn(3))
-	case "conc":
-		c.Conc = 2 + g.r.Intn(7)
-		c.RPT = 1 + g.r.Intn(2)
-	case "range":
-		c.S, c.E = g.rangeOf(keys)
-		c.RPT = 1 + g.r.Intn(3)
-	case "split":
-		n := 1 + g.r.Intn(3)
-		for i := 0; i < n; i++ {
-			k := keys[g.r.Intn(len(keys))]
-			if g.r.Intn(3) == 0 {
-				k += "0"
-			}
-			c.Inj = append(c.Inj, Inject{At: 1 + g.r.Intn(8), Key: hx([]byte(k))})
-		}
-		if g.r.Intn(3) == 0 {
-			c.Conc = 2 + g.r.Intn(3)
-			c.RPT = 1
-		}
-	case "commitsec": // secondaries of committed primaries below the safe point: only the batch resolve can clear them
-		keys = g.keys(6 + g.r.Intn(10))
-		c.Splits = g.splits(g.r.Intn(4), keys)
-		c.Limit = uint32(1 + g.r.Intn(4))
-		g.commitSecPopulation(c, keys)
-	case "twopass": // two passes on one store: lock-resolver status cache, region cache and the Runner object survive
-		c.Limit = uint32(1 + g.r.Intn(4))
-		c.RPT = 1 + g.r.Intn(3)
-		if g.r.Intn(3) == 0 {
-			c.Conc = 2 + g.r.Intn(3)
-		}
-	case "rawscan": // the store's own ScanLock answers (no N1): only the property oracles apply
-		c.Raw = true
-		keys = g.keys(6 + g.r.Intn(12))
-		ntxn = 4 + g.r.Intn(8)
-		c.Splits = g.splits(g.r.Intn(5), keys)
-		c.Limit = uint32(1 + g.r.Intn(4))
-		if g.r.Intn(3) == 0 {
-			c.S, c.E = g.rangeOf(keys)
-			c.RPT = 1 + g.r.Intn(2)
-		}
-		if g.r.Intn(3) == 0 {
-			c.Inj = append(c.Inj, Inject{At: 1 + g.r.Intn(6), Key: hx([]byte(keys[g.r.Intn(len(keys))]))})
-		}
-	case "merge": // a region is MERGED with its right neighbour between ScanLock and ResolveLock (and splits elsewhere)
-		keys = g.keys(8 + g.r.Intn(10))
-		ntxn = 6 + g.r.Intn(8)
-		c.Splits = g.splits(2+g.r.Intn(4), keys)
-		c.Limit = uint32(2 + g.r.Intn(8))
-		for _, at := range []int{2, 4, 6, 8} {
-			if g.r.Intn(3) == 0 {
-				continue
-			}
-			k := keys[g.r.Intn(len(keys))]
-			if g.r.Intn(3) == 0 {
-				k = "" // the first region
-			}
-			kind := "merge"
-			if g.r.Intn(4) == 0 {
-				kind = ""
-			}
-			c.Inj = append(c.Inj, Inject{At: at - g.r.Intn(2)*(g.r.Intn(2)), Key: hx([]byte(k)), Kind: kind})
-		}
-		if g.r.Intn(5) == 0 {
-			c.Conc = 2 + g.r.Intn(3)
-			c.RPT = 1
-		}
-	case "stalepess": // stale-primary pessimistic leftovers next to prewrite locks of the same transaction
-		keys = g.keys(6 + g.r.Intn(10))
-		ntxn = 3 + g.r.Intn(6)
-		c.Splits = g.splits(g.r.Intn(4), keys)
-		c.Limit = uint32(1 + g.r.Intn(5))
-		if g.r.Intn(4) == 0 {
-			c.Conc = 2 + g.r.Intn(4)
-			c.RPT = 1
-		}
-	case "midsplit": // a split lands inside the scanned batch between ScanLock and ResolveLock
-		keys = g.keys(8 + g.r.Intn(10))
-		ntxn = 6 + g.r.Intn(8)
-		c.Splits = g.splits(g.r.Intn(2), keys)
-		c.Limit = uint32(2 + g.r.Intn(4))
-		for i, at := range []int{2, 4, 6} {
-			if i > 0 && g.r.Intn(2) == 0 {
-				continue
-			}
-			k := keys[g.r.Intn(len(keys))]
-			if g.r.Intn(4) == 0 {
-				k += "0"
-			}
-			c.Inj = append(c.Inj, Inject{At: at + g.r.Intn(2)*(i%2), Key: hx([]byte(k))})
-		}
-	case "phase":
-		c.Mode = "phase"
-		c.Limit = 0
-		c.Conc = 1 + g.r.Intn(8)
-	case "full":
-		c.Mode = "full"
-		c.Limit = 0
-		c.Conc = 1 + g.r.Intn(8)
-	}
-	if class != "commitsec" {
-		g.population(c, keys, ntxn)
-	}
-	if class == "full" && g.r.Intn(2) == 0 && c.SP > 12 {
-		c.Barrier = c.SP - uint64(1+g.r.Intn(10))
-		c.ReadTS = append(c.ReadTS, c.Barrier, c.Barrier+1)
-	}
-	if class == "twopass" {
-		// a second population (later timestamps, other keys) written after the first pass; the second pass also meets the
-		// first population's locks that lay above the first safe point
-		in1 := map[string]bool{}
-		for _, k := range keys {
-			in1[k] = true
-		}
-		var keys2 []string
-		for _, k := range g.keys(6 + g.r.Intn(8)) {
-			if !in1[k] {
-				keys2 = append(keys2, k)
-			}
-		}
-		if len(keys2) >= 2 {
-			c2 := &Case{Class: class, Mode: "custom"}
-			g.tsBase = g.tsEnd + 20
-			g.population(c2, keys2, 2+g.r.Intn(6))
-			g.tsBase = 0
-			c.Script2, c.SP2 = c2.Script, c2.SP
-			if c.SP2 < c.SP {
-				c.SP2 = c.SP
-			}
-			keys = append(keys, keys2...)
-		}
-	}
-	ks := map[string]bool{}
-	for _, k := range keys {
-		ks[hx([]byte(k))] = true
-	}
-	for _, o := range append(append([]Op{}, c.Script...), c.Script2...) {
-		ks[o.Key] = true
-		if o.Primary != "" {
-			ks[o.Primary] = true
-		}
-	}
-	for k := range ks {
-		c.Keys = append(c.Keys, k)
-	}
-	sort.Slice(c.Keys, func(i, j int) bool { return bytes.Compare(unhx(c.Keys[i]), unhx(c.Keys[j])) < 0 })
-	return c
-}
-
-func (g *gen) partCase(class string) *Case {
-	g.id++
-	c := &Case{ID: g.id, Kind: "part", Class: class}
-	keys := g.keys(4 + g.r.Intn(8))
-	c.Splits = g.splits(g.r.Intn(7), keys)
-	c.RPT = 1 + g.r.Intn(3)
-	c.Conc = 1 + g.r.Intn(8)
-	c.S, c.E = g.rangeOf(keys)
-	if g.r.Intn(4) == 0 && len(c.Splits) > 0 { // range ends exactly on region boundaries
-		c.E = c.Splits[g.r.Intn(len(c.Splits))]
-		if g.r.Intn(2) == 0 {
-			c.S = c.Splits[0]
-		}
-	}
-	switch class {
-	case "fail":
-		c.FailAt = 1 + g.r.Intn(3)
-	case "pdsplit":
-		n := 1 + g.r.Intn(3)
-		for i := 0; i < n; i++ {
-			c.PdInj = append(c.PdInj, Inject{At: 1 + g.r.Intn(4), Key: hx(g.key())})
-		}
-	}
-	return c
-}
-
-func (g *gen) delCase(class string) *Case {
-	g.id++
-	c := &Case{ID: g.id, Kind: "del", Class: class}
-	keys := g.keys(4 + g.r.Intn(12))
-	c.Splits = g.splits(g.r.Intn(6), keys)
-	c.Conc = 1 + g.r.Intn(8)
-	c.S, c.E = g.rangeOf(keys)
-	if g.r.Intn(3) == 0 { // bounds that are data keys: start inclusive, end exclusive
-		a, b := keys[g.r.Intn(len(keys))], keys[g.r.Intn(len(keys))]
-		if a > b {
-			a, b = b, a
-		}
-		c.S, c.E = hx([]byte(a)), hx([]byte(b))
-	}
-	c.Notify = class == "notify"
-	ts := uint64(10)
-	for _, k := range keys {
-		n := 1 + g.r.Intn(2)
-		for i := 0; i < n; i++ {
-			ts += 5
-			c.Script = append(c.Script, Op{Op: "prewrite", Key: hx([]byte(k)), Primary: hx([]byte(k)), Start: ts, Kind: "put", Val: hx([]byte(fmt.Sprintf("d%d", ts)))})
-			if i < n-1 || g.r.Intn(4) > 0 {
-				c.Script = append(c.Script, Op{Op: "commit", Key: hx([]byte(k)), Start: ts, Commit: ts + 2})
-			}
-		}
-		c.Keys = append(c.Keys, hx([]byte(k)))
-	}
-	if class == "split" {
-		n := 1 + g.r.Intn(3)
-		for i := 0; i < n; i++ {
-			c.Inj = append(c.Inj, Inject{At: 1 + g.r.Intn(4), Key: hx(g.key())})
-		}
-	}
-	return c
-}
-
-func (g *gen) visCase() *Case {
-	g.id++
-	c := &Case{ID: g.id, Kind: "vis", Class: "vis"}
-	keys := g.keys(2 + g.r.Intn(4))
-	c.Splits = g.splits(g.r.Intn(3), keys)
-	ts := uint64(10)
-	for _, k := range keys {
-		ts += 5
-		c.Script = append(c.Script, Op{Op: "prewrite", Key: hx([]byte(k)), Primary: hx([]byte(k)), Start: ts, Kind: "put", Val: hx([]byte(fmt.Sprintf("d%d", ts)))})
-		c.Script = append(c.Script, Op{Op: "commit", Key: hx([]byte(k)), Start: ts, Commit: ts + 2})
-		c.Keys = append(c.Keys, hx([]byte(k)))
-	}
-	c.Cached = uint64(20 + g.r.Intn(60))
-	c.Stale = g.r.Intn(6) == 0
-	c.ReadTS = []uint64{c.Cached - 1, c.Cached, c.Cached + 1, uint64(1 + g.r.Intn(int(c.Cached))), c.Cached + uint64(g.r.Intn(100)), 1 << 40}
-	if g.r.Intn(4) == 0 {
-		c.Cached = 0
-		c.ReadTS = []uint64{0, 1, 50}
-	}
-	return c
-}
-
-// safe point learned at a chosen instant of a read (before send / response in flight / after the call), per access
-// path and per batch of a multi-batch scan
-func (g *gen) vistCase(path string) *Case {
-	g.id++
-	c := &Case{ID: g.id, Kind: "vist", Class: "vist-" + path, Path: path, S: "-", E: "-"}
-	keys := g.keys(4 + g.r.Intn(8))
-	c.Splits = g.splits(g.r.Intn(4), keys)
-	if path == "batchget" {
-		c.Splits = g.splits(2+g.r.Intn(4), keys)
-	}
-	ts := uint64(10)
-	for _, k := range keys {
-		ts += 5
-		c.Script = append(c.Script, Op{Op: "prewrite", Key: hx([]byte(k)), Primary: hx([]byte(k)), Start: ts, Kind: "put", Val: hx([]byte(fmt.Sprintf("d%d", ts)))})
-		c.Script = append(c.Script, Op{Op: "commit", Key: hx([]byte(k)), Start: ts, Commit: ts + 2})
-		c.Keys = append(c.Keys, hx([]byte(k)))
-	}
-	c.TS = ts + 10 + uint64(g.r.Intn(20))
-	c.Cached = c.TS - uint64(g.r.Intn(5))
-	if path == "get" {
-		c.Keys = []string{c.Keys[g.r.Intn(len(c.Keys))]}
-	}
-	c.BatchSize = 1 + g.r.Intn(3)
-	nrpc := 1
-	if path == "scan" || path == "rscan" {
-		nrpc = len(keys)/c.BatchSize + len(c.Splits) + 1
-	} else if path == "batchget" {
-		nrpc = len(c.Splits) + 1
-	}
-	ninj := g.r.Intn(3)
-	if g.r.Intn(4) > 0 && ninj == 0 {
-		ninj = 1
-	}
-	for i := 0; i < ninj; i++ {
-		when := []string{"before", "after_inner", "after_inner", "after_call"}[g.r.Intn(4)]
-		sp := c.TS + uint64(1+g.r.Intn(3))
-		switch g.r.Intn(6) {
-		case 0:
-			sp = c.TS // equal: still visible
-		case 1:
-			sp = c.TS - 1
-		}
-		c.VisInj = append(c.VisInj, VisInj{At: 1 + g.r.Intn(nrpc), When: when, SP: sp})
-	}
-	if path == "batchget" && g.r.Intn(3) == 0 {
-		// several regions => several RPCs in flight at once; one raises the safe point, another lowers it again:
-		// the verdict depends on which cache write really came last (update + log entry are atomic in the gate)
-		whens := []string{"before", "after_inner"}
-		a, b := 1+g.r.Intn(nrpc), 1+g.r.Intn(nrpc)
-		c.VisInj = []VisInj{{At: a, When: whens[g.r.Intn(2)], SP: c.TS + 3}, {At: b, When: whens[g.r.Intn(2)], SP: c.TS - uint64(g.r.Intn(2))}}
-		if g.r.Intn(2) == 0 {
-			c.VisInj[0], c.VisInj[1] = c.VisInj[1], c.VisInj[0]
-		}
-	}
-	if g.r.Intn(6) == 0 { // raised before the send, lowered again while the response is in flight
-		at := 1 + g.r.Intn(nrpc)
-		c.VisInj = []VisInj{{At: at, When: "before", SP: c.TS + 2}, {At: at, When: "after_inner", SP: c.TS}}
-	}
-	return c
-}
 
 // ---------------------------------------------------------------- main
 
